@@ -864,6 +864,11 @@ class Model(Object):
                             self.genes.remove(gene)
                             if context:
                                 context(partial(self.genes.add, gene))
+                            # remove reference to the gene in all groups
+                            for group in self.get_associated_groups(gene):
+                                group.remove_members([gene])
+                                if context:
+                                    context(partial(group.add_members, [gene]))
 
                 # remove reference to the reaction in all groups
                 associated_groups = self.get_associated_groups(reaction)
